@@ -224,6 +224,7 @@ pub fn sweep(args: &[String]) {
 pub fn trace(args: &[String]) {
   let n = arg_usize(args, "--events", 5000);
   let outp = arg_value(args, "--out").expect("--out");
+  let no_ticks = args.iter().any(|a| a == "--no-ticks");
   let mut rng = Rng::new(seed_from_env() ^ 0x1012);
   let mut out: Vec<u8> = Vec::new();
   let carts: [(u8, u8, u8); 8] = [(0, 0, 0), (0, 0, 2), (1, 2, 3), (3, 1, 1), (2, 4, 2), (0x13, 3, 3), (0x11, 2, 0), (0x12, 0x52, 2)];
@@ -266,6 +267,7 @@ pub fn trace(args: &[String]) {
         let v = memory_read_byte(p, a);
         writeln!(out, "{}", json!({"ev": "br", "a": a, "v": v})).unwrap();
       } else if k < 18 {
+        if no_ticks { count -= 1; continue; }
         let big = rng.chance(1, 5);
         let nn = 4 * (1 + rng.below(if big { 20000 } else { 64 }) as usize);
         core.memory.run_clock_cycles(crate::timing::ClockCycles(nn));
